@@ -662,7 +662,9 @@ fn family_case(ctx: &Ctx, out: &mut ShardOut, op: &str, w: (usize, usize), cfg: 
 
 /// Families added after the audit of round 3: wide observability, one window + static part, fat events,
 /// query-text / entry-point variants. They continue the global case numbering.
-fn run_new_families(ctx: &Ctx, out: &mut ShardOut, all: &[Config], idx: &mut u64) {
+/// `small_first` = true runs only the small, threshold-crossing families (fat events), which must not be
+/// starved by the wall-clock cap; false runs the large ones (wide, static, variants).
+fn run_new_families(ctx: &Ctx, out: &mut ShardOut, all: &[Config], idx: &mut u64, small_first: bool) {
     let gaps: Vec<usize> = vec![0, 1, 2];
     let thorough = ctx.thorough();
     let mut expired = |out: &mut ShardOut, what: &str| -> bool {
@@ -673,6 +675,7 @@ fn run_new_families(ctx: &Ctx, out: &mut ShardOut, all: &[Config], idx: &mut u64
             false
         }
     };
+    if !small_first {
     // --- wide: `?s ?p ?o` over the whole store (no rules / two-step chain) and a two-premise rule ---
     let wide: Vec<&Config> = all.iter().filter(|c| c.family == "wide").collect();
     'wide: for (oi, op) in OPS.iter().enumerate() {
@@ -735,6 +738,8 @@ fn run_new_families(ctx: &Ctx, out: &mut ShardOut, all: &[Config], idx: &mut u64
             }
         }
     }
+    }
+    if small_first {
     // --- fat: one event of 140 triples (70 join rows) ---
     let fat: Vec<&Config> = all.iter().filter(|c| c.family == "fat").collect();
     'fat: for op in OPS.iter() {
@@ -756,6 +761,8 @@ fn run_new_families(ctx: &Ctx, out: &mut ShardOut, all: &[Config], idx: &mut u64
             }
         }
     }
+    }
+    if !small_first {
     // --- variants: other spellings of the same window / other entry points for the same stream ---
     if let Some(base) = all.iter().find(|c| c.name == "join_subclass") {
         'var: for variant in VARIANTS {
@@ -789,6 +796,7 @@ fn run_new_families(ctx: &Ctx, out: &mut ShardOut, all: &[Config], idx: &mut u64
             }
         }
     }
+    }
 }
 
 fn run(ctx: &Ctx) -> ShardOut {
@@ -798,6 +806,39 @@ fn run(ctx: &Ctx) -> ShardOut {
     let gaps: Vec<usize> = vec![0, 1, 2];
     let maxlen = if ctx.thorough() { 5 } else { 4 };
     let mut idx = 0u64;
+    // The small families that exist to cross a queue depth or a size threshold run FIRST, so that a
+    // wall-clock cap on a loaded machine cuts the tail of the big enumerations, never these.
+    // Long streams (12 items, one firing per item once the window slides): the producer can run far
+    // ahead of the worker, so queue-depth / back-pressure behaviour of the window -> worker channel is
+    // exercised. Single-thread oracle + every schedule with <= 1 preemption (thorough 2).
+    if sched::available() {
+        for (oi, op) in OPS.iter().enumerate() {
+            for w in [(3usize, 1usize), (2, 2)] {
+                for (ci, cfg) in cfgs.iter().enumerate() {
+                    for variant in 0..3usize {
+                        idx += 1;
+                        if !ctx.mine(idx) {
+                            continue;
+                        }
+                        if !ctx.thorough() && (oi + ci + variant) % 2 == 1 {
+                            continue;
+                        }
+                        if ctx.expired() {
+                            out.capped.push("wall-clock cap hit in the long-stream family".into());
+                            break;
+                        }
+                        let n = 12;
+                        let stream: Stream = (0..n).map(|k| ((k * (variant + 1) + k / 3) % 3, 1 + k)).collect();
+                        out.count("long_streams", 1);
+                        if let Some(single) = check_single(&mut out, op, w, cfg, &stream) {
+                            check_multi(&mut out, ctx, op, w, cfg, &stream, &single, if ctx.thorough() { 2 } else { 1 });
+                        }
+                    }
+                }
+            }
+        }
+    }
+    run_new_families(ctx, &mut out, &all_cfgs, &mut idx, true);
     'all: for (oi, op) in OPS.iter().enumerate() {
         for (wi, w) in WINDOWS.iter().enumerate() {
             for (ci, cfg) in cfgs.iter().enumerate() {
@@ -869,37 +910,7 @@ fn run(ctx: &Ctx) -> ShardOut {
             }
         }
     }
-    // Long streams (12 items, one firing per item once the window slides): the producer can run far
-    // ahead of the worker, so queue-depth / back-pressure behaviour of the window -> worker channel is
-    // exercised. Single-thread oracle + every schedule with <= 1 preemption (thorough 2).
-    if sched::available() {
-        for (oi, op) in OPS.iter().enumerate() {
-            for w in [(3usize, 1usize), (2, 2)] {
-                for (ci, cfg) in cfgs.iter().enumerate() {
-                    for variant in 0..3usize {
-                        idx += 1;
-                        if !ctx.mine(idx) {
-                            continue;
-                        }
-                        if !ctx.thorough() && (oi + ci + variant) % 2 == 1 {
-                            continue;
-                        }
-                        if ctx.expired() {
-                            out.capped.push("wall-clock cap hit in the long-stream family".into());
-                            break;
-                        }
-                        let n = 12;
-                        let stream: Stream = (0..n).map(|k| ((k * (variant + 1) + k / 3) % 3, 1 + k)).collect();
-                        out.count("long_streams", 1);
-                        if let Some(single) = check_single(&mut out, op, w, cfg, &stream) {
-                            check_multi(&mut out, ctx, op, w, cfg, &stream, &single, if ctx.thorough() { 2 } else { 1 });
-                        }
-                    }
-                }
-            }
-        }
-    }
-    run_new_families(ctx, &mut out, &all_cfgs, &mut idx);
+    run_new_families(ctx, &mut out, &all_cfgs, &mut idx, false);
     if !sched::available() {
         out.machinery_errors.push("hook H1 (kolibrie::verif_sched) is not compiled in: the harness must be built with --cfg kolibrie_verif".into());
     }
